@@ -29,6 +29,7 @@ type Prog struct {
 	implCache map[string][]types.Type
 	allNamed  []types.Type
 	byKey     map[string]*ssa.Function
+	boxedPtr  []types.Type
 }
 
 func mathFloat64bits(f float64) uint64 { return math.Float64bits(f) }
@@ -241,6 +242,17 @@ func (p *Prog) implementers(it types.Type) []types.Type {
 			}
 		}
 	}
+	// pointer types *T (T implementing by value) that the program actually boxes into interfaces
+	seen := map[string]bool{}
+	for _, t := range out {
+		seen[t.String()] = true
+	}
+	for _, t := range p.boxedPointerTypes() {
+		if ok && !seen[t.String()] && types.Implements(t, iface) {
+			seen[t.String()] = true
+			out = append(out, t)
+		}
+	}
 	p.implCache[key] = out
 	return out
 }
@@ -335,4 +347,31 @@ func (p *Prog) witnessType(f *ssa.Function, w *Witness) types.Type {
 		}
 	}
 	return types.Typ[types.Int]
+}
+
+// boxedPointerTypes: pointer-to-named-struct types that some MakeInterface instruction of the repo converts to an
+// interface (deterministic order).
+func (p *Prog) boxedPointerTypes() []types.Type {
+	if p.boxedPtr != nil {
+		return p.boxedPtr
+	}
+	seen := map[string]types.Type{}
+	for _, f := range p.allFuncs() {
+		for _, b := range f.Blocks {
+			for _, ins := range b.Instrs {
+				if mi, ok := ins.(*ssa.MakeInterface); ok {
+					if pt, isPtr := mi.X.Type().(*types.Pointer); isPtr {
+						if n, isNamed := pt.Elem().(*types.Named); isNamed && n.Obj().Pkg() != nil && strings.HasPrefix(n.Obj().Pkg().Path(), "grol.io/grol") {
+							seen[pt.String()] = pt
+						}
+					}
+				}
+			}
+		}
+	}
+	p.boxedPtr = []types.Type{}
+	for _, k := range sortedKeys(seen) {
+		p.boxedPtr = append(p.boxedPtr, seen[k])
+	}
+	return p.boxedPtr
 }
